@@ -83,7 +83,7 @@ func main() {
 	run.Set("delay_bound", D)
 	run.Set("server_deviation_bound", E)
 	run.Sample(map[string]any{"scenario": "R-n2-k1", "history": "caller0 request accepted under salt 100; salt rotates to 200; caller1 request rejected; server answers [bad_server_salt(tag=2), result(tag=1)] (deviation: out of order)"})
-	(&sess.XSpec{Run: run, Scenarios: scenarios(run.Thorough()), Budget: budget,
+	(&sess.XSpec{Run: run, Scenarios: scenarios(run.Thorough()), Budget: budget, FreeSet: run.ID,
 		Bounds: func(sc *sess.Scenario) sched.Bounds {
 			if sc.Fresh != nil { // every execution repeats a ~35 ms key exchange: one bound lower
 				return sched.Bounds{Preemptions: -1, Delays: D - 1, EnvDev: E}
